@@ -37,6 +37,8 @@ def program(rng, i, tier):
         return src, [('L%d' % k, ['L%d' % (k - 1)] if k else [], l) for k, l in enumerate(c['layers'])]
     if src == 'c02':
         c = c02.gen_case(rng, i, tier)
+        while 'steps' not in c:         # C02's file-only cases (native TOML scalars) have no merge program
+            c = c02.gen_case(rng, i, tier)
         return src, [(s['id'], s['parents'], s['data']) for s in c['steps']]
     if src == 'c06':
         c = c06.gen_case(rng, i, tier)
